@@ -268,3 +268,131 @@ func checkC04StructTypes(c *Ctx, n int) {
 		c.Check("struct-typed-options-never-make-parsing-panic", ok, "C04:struct-type", in, got, "a normal return: success or a *flags.Error")
 	}
 }
+
+// exLevel: a struct-kind type with its own conversion that rejects most texts
+type exLevel struct{ n int }
+
+func (l *exLevel) UnmarshalFlag(v string) error {
+	switch v {
+	case "low":
+		l.n = 1
+	case "high":
+		l.n = 3
+	default:
+		return fmt.Errorf("exLevel: low or high, not %q", v)
+	}
+	return nil
+}
+
+// exWord: a string-kind type with its own conversion
+type exWord string
+
+func (w *exWord) UnmarshalFlag(v string) error {
+	if v != "alpha" && v != "beta" {
+		return fmt.Errorf("exWord: alpha or beta, not %q", v)
+	}
+	*w = exWord("<" + v + ">")
+	return nil
+}
+
+// checkC11DeepUnmarshaler (library alone): a type with its own conversion reached through pointers, as
+// an option field (*T, **T), as the element of a slice ([]*T) or as the value of a map (map[string]T,
+// map[string]*T): a text the conversion rejects is ErrMarshal, a text it accepts stores what IT denotes.
+func checkC11DeepUnmarshaler(c *Ctx, n int) {
+	r := c.Rng
+	for i := 0; i < n; i++ {
+		structKind := r.Intn(2) == 0
+		base := reflect.TypeOf(exWord(""))
+		good, bad := []string{"alpha", "beta"}[r.Intn(2)], []string{"gamma", "", "Alpha"}[r.Intn(3)]
+		if structKind {
+			base = reflect.TypeOf(exLevel{})
+			good, bad = []string{"low", "high"}[r.Intn(2)], []string{"bogus", "", "LOW"}[r.Intn(3)]
+		}
+		shape := []string{"T", "*T", "**T", "[]T", "[]*T", "map[string]T", "map[string]*T"}[r.Intn(7)]
+		var t reflect.Type
+		switch shape {
+		case "T":
+			t = base
+		case "*T":
+			t = reflect.PtrTo(base)
+		case "**T":
+			t = reflect.PtrTo(reflect.PtrTo(base))
+		case "[]T":
+			t = reflect.SliceOf(base)
+		case "[]*T":
+			t = reflect.SliceOf(reflect.PtrTo(base))
+		case "map[string]T":
+			t = reflect.MapOf(reflect.TypeOf(""), base)
+		default:
+			t = reflect.MapOf(reflect.TypeOf(""), reflect.PtrTo(base))
+		}
+		useBad := r.Intn(2) == 0
+		text := good
+		if useBad {
+			text = bad
+		}
+		arg := text
+		if strings.HasPrefix(shape, "map") {
+			arg = "k:" + text
+		}
+		st := reflect.StructOf([]reflect.StructField{{Name: "Lv", Type: t, Tag: `long:"lv"`}})
+		v := reflect.New(st)
+		var err error
+		pan := safe(func() { _, err = flags.NewParser(v.Interface(), flags.None).ParseArgs([]string{"--lv=" + arg}) })
+		c.R.Evaluations++
+		// what is stored, rendered through the innermost value
+		cur := v.Elem().Field(0)
+		for cur.IsValid() && (cur.Kind() == reflect.Ptr || cur.Kind() == reflect.Slice || cur.Kind() == reflect.Map) {
+			switch cur.Kind() {
+			case reflect.Ptr:
+				if cur.IsNil() {
+					cur = reflect.Value{}
+				} else {
+					cur = cur.Elem()
+				}
+			case reflect.Slice:
+				if cur.Len() == 0 {
+					cur = reflect.Value{}
+				} else {
+					cur = cur.Index(0)
+				}
+			case reflect.Map:
+				mv := cur.MapIndex(reflect.ValueOf("k"))
+				cur = mv
+			}
+		}
+		stored := "nothing"
+		if cur.IsValid() {
+			if structKind {
+				stored = fmt.Sprint(cur.Field(0).Int())
+			} else {
+				stored = cur.String()
+			}
+		}
+		desc := fmt.Sprintf("Lv %s `long:\"lv\"`, argv [--lv=%s]", t, arg)
+		c.Distinct("c11deep|" + desc)
+		c.Class(fmt.Sprintf("c11/deep-unmarshaler shape=%s struct-kind=%v rejected-text=%v", shape, structKind, useBad))
+		in := map[string]interface{}{"declaration": fmt.Sprintf("Lv %s", t), "argument": arg, "the_type_implements_Unmarshaler": base.String()}
+		got := fmt.Sprintf("stored %s", stored)
+		if pan != nil {
+			got = fmt.Sprintf("panic: %v", pan)
+		} else if err != nil {
+			got = fmt.Sprintf("error (%T): %v", err, err)
+		}
+		var ok bool
+		var want string
+		if useBad {
+			want = "ErrMarshal"
+			fe, isFlags := err.(*flags.Error)
+			ok = pan == nil && isFlags && fe.Type == flags.ErrMarshal
+		} else {
+			wantStored := "<" + good + ">"
+			if structKind {
+				wantStored = map[string]string{"low": "1", "high": "3"}[good]
+			}
+			want = "success, stored " + wantStored
+			ok = pan == nil && err == nil && stored == wantStored
+		}
+		c.Check("a-conversion-of-the-type's-own-is-used-at-every-depth", ok, "C11:deep-unmarshaler", in, got, want)
+	}
+}
